@@ -56,6 +56,9 @@ def shapes():
     S.append(('cubic-S', lambda k: sp.CubicBezier(0j, (4 + 4j) * k, (0 - 4j) * k, (4 + 0j) * k), False))
     S.append(('arc-circle', lambda k: sp.Arc(0j, (5 + 5j) * k, 0, False, True, (6 + 8j) * k), True))
     S.append(('arc-ellipse', lambda k: sp.Arc(0j, (6 + 3j) * k, 30, True, False, (4 + 2j) * k), False))
+    # nearly circular ellipses (radii 1e-5 .. 1e-3 relative apart): the speed is not constant
+    S.append(('arc-near-circle', lambda k: sp.Arc(0j, complex(100, 100.0009) * k, 0, True, True, (120 + 90j) * k), False))
+    S.append(('arc-near-circle-rotated', lambda k: sp.Arc(0j, complex(5, 5.004) * k, 40, False, False, (3 - 6j) * k), False))
     return S
 
 
